@@ -20,7 +20,7 @@ func init() {
 			"R43.2 protocol.Tag.MaxMessageSize returns a non-zero constant for every tag of protocol.TagList and for every tag constant readLoop compares msg.Tag with. " +
 			"R43.3 LimitedReaderSlurper: in Read every store into s.buffers[..] is reachable only past the failing side of `currentMessageBytesRead > currentMessageMaxSize` (bypass: currentMessageMaxSize == 0, which R43.2 reserves for unknown tags), the counter is increased by the n of that very reader.Read before the test, allocateNextBuffer is called only when remainedUnallocatedSpace != 0, allocates min(step, remaining) and subtracts what it allocated; Reset stores its argument into currentMessageMaxSize and zero into currentMessageBytesRead; these fields have no other writers. " +
 			"R43.4 the io.Reader returned by conn.NextReader is obtained only in readLoop and consumed only by io.ReadFull into a fixed-size local array, by the slurper, or by io.Copy(io.Discard, …). " +
-			"R43.5 the hand-off is reachable only past CheckIncomingMessage(msg.Tag, msg.Data, add=true, …)==false, bypassed only by len(msg.Data)==0, a nil filter or dedupSafeTag(msg.Tag)==false; CheckIncomingMessage returns CheckDigest(digest, add, promote) on the same filter; CheckDigest returns find()'s answer and, when add && !has, inserts the digest before returning; both wsPeer literals built by WebsocketNetwork pass the network's single incomingMsgFilter, which is assigned only in setup. " +
+			"R43.5 the hand-off is reachable only past CheckIncomingMessage(msg.Tag, msg.Data, add=true, …)==false, bypassed only by len(msg.Data)==0, a nil filter or dedupSafeTag(msg.Tag)==false; CheckIncomingMessage returns CheckDigest(digest, add, promote) on the same filter; CheckDigest returns find()'s answer and, when add && !has, inserts the digest before returning; every wsPeer literal of package network (WebsocketNetwork's two and P2PNetwork's stream peer) passes the incoming filter field of the network type that builds it — a network type that builds peers but has no filter field is a violation — the network-level filters are assigned only in setup and in NewHybridP2PNetwork, which gives both halves of a hybrid node the same filter instance. " +
 			"R43.6 zstd proposal decompression: MaxDecompressedMessageSize equals the PP tag limit and the read loop of zstdProposalDecompressor.convert continues only past len(b) <= MaxDecompressedMessageSize. " +
 			"Does NOT decide: the filter's retention window or bucket rotation, de-duplication for P2PNetwork stream peers (they are built without a filter), which bytes the digest covers (hash collisions, over-eager dropping of distinct messages), the total allocation cap of the slurper, the websocket library's own frame limit, vpack vote decompression bounds, or numeric adequacy of the per-tag constants.",
 		Assumptions: []string{
@@ -564,7 +564,7 @@ func c43Dedup(c *Ctx, readLoop *ssa.Function, sends []ssa.Instruction, fTag, fDa
 	find := c.Func("network.messageFilter.find")
 	dedupSafe := c.Func("network.dedupSafeTag")
 	fFilter := c.Field("network.wsPeer.incomingMsgFilter")
-	fNetFilter := c.Field("network.WebsocketNetwork.incomingMsgFilter")
+	_ = c.Field("network.WebsocketNetwork.incomingMsgFilter")
 
 	isLenData := func(v ssa.Value) bool {
 		x, ok := lenOf(v)
@@ -662,31 +662,51 @@ func c43Dedup(c *Ctx, readLoop *ssa.Function, sends []ssa.Instruction, fTag, fDa
 		}
 	}
 
-	// one shared filter: both WebsocketNetwork peer literals pass wn.incomingMsgFilter
+	// one shared filter per node: EVERY wsPeer literal of package network passes the incoming filter of the
+	// network that builds it (WebsocketNetwork and, since the fix recorded in known_findings.json, P2PNetwork;
+	// HybridP2PNetwork shares one filter between its two halves)
 	{
 		wsPeerT := c.Named("network.wsPeer")
-		wsNet := c.Named("network.WebsocketNetwork")
+		msgFilterT := c.Named("network.messageFilter")
+		filterFieldOf := func(nt *types.Named) *types.Var {
+			st, ok := nt.Underlying().(*types.Struct)
+			if !ok {
+				return nil
+			}
+			for i := 0; i < st.NumFields(); i++ {
+				if pt, isP := st.Field(i).Type().(*types.Pointer); isP {
+					if ft, isN := types.Unalias(pt.Elem()).(*types.Named); isN && ft.Origin() == msgFilterT {
+						return st.Field(i)
+					}
+				}
+			}
+			return nil
+		}
+		netFilterFields := map[*types.Var]bool{}
 		for _, s := range c.Literals(wsPeerT, true, ScanOpts{SkipGenerated: true, OnlyPkgs: []string{"network"}}) {
 			cl := s.Node.(*ast.CompositeLit)
 			info := s.Pkg.TypesInfo
-			// does the enclosing function belong to the network type that owns a filter?
-			ownsFilter := false
+			construct := "literal(wsPeer)@" + s.Func + ":incomingMsgFilter"
+			var owner *types.Named
 			if f, ok := c.TryObj(s.Func).(*types.Func); ok {
 				if recv := f.Type().(*types.Signature).Recv(); recv != nil {
 					t := recv.Type()
 					if p, isP := t.(*types.Pointer); isP {
 						t = p.Elem()
 					}
-					if nt, isN := types.Unalias(t).(*types.Named); isN && nt.Origin() == wsNet {
-						ownsFilter = true
-					}
+					owner, _ = types.Unalias(t).(*types.Named)
 				}
 			}
-			construct := "literal(wsPeer)@" + s.Func + ":incomingMsgFilter"
-			if !ownsFilter {
-				c.Ok("R43.5", construct, c.Pos(cl.Pos()), "built outside WebsocketNetwork (no incoming filter exists there): de-duplication is not provided for these peers and not claimed")
+			if owner == nil {
+				c.Unk("R43.5", construct, c.Pos(cl.Pos()), "a peer is built outside a method of a network type: cannot tell which incoming filter it should share")
 				continue
 			}
+			netField := filterFieldOf(owner)
+			if netField == nil {
+				c.Bad("R43.5", construct, c.Pos(cl.Pos()), owner.Obj().Name()+" builds peers but has no incoming message filter at all: EnableIncomingMessageFilter is silently ignored there and the same duplicate-safe message received from two peers is handed to the handlers twice")
+				continue
+			}
+			netFilterFields[netField] = true
 			ok := false
 			for _, el := range cl.Elts {
 				kv, isKV := el.(*ast.KeyValueExpr)
@@ -697,17 +717,30 @@ func c43Dedup(c *Ctx, readLoop *ssa.Function, sends []ssa.Instruction, fTag, fDa
 				if !isID || info.Uses[id] != types.Object(fFilter) {
 					continue
 				}
-				ok = selField(info, kv.Value) == fNetFilter
+				ok = selField(info, kv.Value) == netField
 			}
-			c.Check(ok, "R43.5", construct, c.Pos(cl.Pos()), "the peer is given the network-wide filter wn.incomingMsgFilter, so duplicates are recognised across peers")
+			c.Check(ok, "R43.5", construct, c.Pos(cl.Pos()), "the peer is given the network-wide filter "+owner.Obj().Name()+"."+netField.Name()+", so duplicates are recognised across peers")
 		}
 		c.OwnerRule("R43.5", "write(wsPeer.incomingMsgFilter)", c.FieldWrites(map[*types.Var]bool{fFilter: true}, ScanOpts{SkipGenerated: true}), map[string]string{
-			"network.WebsocketNetwork.ServeHTTP":  "incoming peer literal",
-			"network.WebsocketNetwork.tryConnect": "outgoing peer literal",
+			"network.WebsocketNetwork.ServeHTTP":      "incoming peer literal",
+			"network.WebsocketNetwork.tryConnect":     "outgoing peer literal",
+			"network.P2PNetwork.baseWsStreamHandler": "p2p stream peer literal",
 		})
-		c.OwnerRule("R43.5", "write(WebsocketNetwork.incomingMsgFilter)", c.FieldWrites(map[*types.Var]bool{fNetFilter: true}, ScanOpts{SkipGenerated: true}), map[string]string{
+		c.OwnerRule("R43.5", "write(network-level incomingMsgFilter)", c.FieldWrites(netFilterFields, ScanOpts{SkipGenerated: true}), map[string]string{
 			"network.WebsocketNetwork.setup": "created once at setup when EnableIncomingMessageFilter",
+			"network.P2PNetwork.setup":       "created once at setup when EnableIncomingMessageFilter",
+			"network.NewHybridP2PNetwork":    "one filter shared by both halves of a hybrid node",
 		})
+		// the hybrid node shares ONE filter: both halves deliver to the same handlers
+		if hy := c.SSAOf(c.Func("network.NewHybridP2PNetwork")); hy != nil && len(netFilterFields) >= 2 {
+			vals := map[ssa.Value]bool{}
+			n := 0
+			for _, st := range StoresToField(hy, false, netFilterFields) {
+				vals[st.(*ssa.Store).Val] = true
+				n++
+			}
+			c.Check(n >= 2 && len(vals) == 1, "R43.5", "network.NewHybridP2PNetwork:both halves share one incoming filter", c.Pos(hy.Pos()), "the websocket and the p2p half of a hybrid node are given the same filter instance (separate filters would each let the other half's copy through)")
+		}
 	}
 }
 
